@@ -676,6 +676,117 @@ async fn oversized_accept_case(seed: u64) -> Out {
 	out
 }
 
+/// Directed family: other ways of putting the per-connection service together than the accept loop's
+/// `builder.clone().build(..)` - middleware set again on the clone made for each connection (as in
+/// examples/jsonrpsee_as_service.rs), or one service built once and cloned for every connection (as in
+/// examples/ws_dual_stack.rs). The statement's "per connection" clauses hold however the service was assembled: an
+/// unsubscribe naming another connection's subscription answers false and leaves it alone; the cap counts each
+/// connection's own subscriptions only.
+async fn assembly_case(seed: u64) -> Out {
+	let mut out = Out::default();
+	let mut r = Rng::new(seed);
+	let reg = Registry::default();
+	let cap = 1 + r.below(2) as u32;
+	let cfg = ServerConfig::builder().max_subscriptions_per_connection(cap).max_connections(10).build();
+	let mut srv = MemServer::new(cfg, subctl::module(reg.clone()));
+	let assembly = r.below(3);
+	let how = ["rpc-middleware-set-per-connection", "http-middleware-set-per-connection", "one-service-cloned-per-connection"][assembly as usize];
+	match assembly {
+		0 => srv.per_conn_rpc_middleware = true,
+		1 => srv.per_conn_http_middleware = true,
+		_ => srv.one_service_for_all = true,
+	}
+	let (Ok(mut a), Ok(mut b)) = (srv.ws().await, srv.ws().await) else {
+		out.violations.push(("setup-failed/ws-connect".into(), "assembly scenario".into()));
+		return out;
+	};
+	macro_rules! bad {
+		($sig:expr, $($arg:tt)*) => { out.violations.push(($sig.to_string(), format!($($arg)*))) };
+	}
+	let raw = r.chance(1, 4);
+	let (sub, unsub) = if raw { ("sub_raw", "unsub_raw") } else { ("sub", "unsub") };
+	let mut next_call = 0u64;
+	macro_rules! call {
+		($ws:expr, $method:expr, $params:expr) => {{
+			next_call += 1;
+			let _ = $ws.send_text(&json!({"jsonrpc": "2.0", "id": next_call, "method": $method, "params": $params}).to_string()).await;
+			settle().await;
+			next_call
+		}};
+	}
+	macro_rules! response {
+		($ws:expr, $id:expr) => {{ $ws.drain_until_idle(Duration::from_millis(50)).await.iter().filter_map(|f| f.json()).find(|v| v["id"] == json!($id)) }};
+	}
+	// connection A fills its cap
+	let mut a_ids: Vec<Value> = Vec::new();
+	for k in 0..cap {
+		let tag = format!("a{k}");
+		let c = call!(a, sub, json!([tag]));
+		let Some(h) = reg.get(&tag) else {
+			let rp = response!(a, c);
+			bad!(format!("refused-with-free-slot/subscribe/{how}"), "connection A holds {k} of {cap}: {rp:?}");
+			return out;
+		};
+		match h.cmd(Cmd::Accept).await.map(|t| t.reply) {
+			Some(Reply::Accepted { sub_id }) => a_ids.push(sub_id),
+			other => {
+				bad!("accept-failed/connection-open", "assembly scenario: {other:?}");
+				return out;
+			}
+		}
+		out.admissions += 1;
+	}
+	// the cap is A's alone: B, holding nothing, is admitted up to its own cap, then refused
+	for k in 0..=cap {
+		let tag = format!("b{k}");
+		let c = call!(b, sub, json!([tag]));
+		out.ops_checked += 1;
+		match (reg.get(&tag), k < cap) {
+			(Some(h), true) => {
+				let _ = h.cmd(Cmd::Accept).await;
+				out.admissions += 1;
+			}
+			(None, true) => {
+				let rp = response!(b, c);
+				bad!(format!("refused-with-free-slot/subscribe/{how}"), "connection B holds {k} of {cap} subscriptions (connection A holds {cap}) but its subscribe was refused: {rp:?}");
+				return out;
+			}
+			(Some(_), false) => bad!(format!("cap-exceeded/subscribe/{how}"), "connection B was admitted a subscription beyond its cap of {cap}"),
+			(None, false) => out.refusals += 1,
+		}
+	}
+	// B names A's subscription ids: false, and A's subscriptions stay
+	for id in &a_ids {
+		let u = call!(b, unsub, json!([id]));
+		out.ops_checked += 1;
+		match response!(b, u) {
+			Some(v) if v["result"] == json!(true) => {
+				bad!(format!("unsubscribe-result-wrong/foreign-id/{how}"), "connection B unsubscribed {id}, a subscription of connection A: answered true");
+				// (what follows from it - A's sink closed, A's own unsubscribe answered false - is the same fault)
+				out.history.push(format!("{how}, cap {cap}"));
+				return out;
+			}
+			_ => out.unsub_false += 1,
+		}
+	}
+	for (k, id) in a_ids.iter().enumerate() {
+		if let Some(h) = reg.get(&format!("a{k}")) {
+			match h.cmd(Cmd::IsClosed(0)).await.map(|t| t.reply) {
+				Some(Reply::Closed(false)) => {}
+				other => bad!(format!("is-closed-wrong/reported-closed-while-active/{how}"), "after connection B named it in an unsubscribe call, A's subscription {id} reports {other:?}"),
+			}
+		}
+		let u = call!(a, unsub, json!([id]));
+		out.ops_checked += 1;
+		match response!(a, u) {
+			Some(v) if v["result"] == json!(true) => out.unsub_true += 1,
+			other => bad!(format!("unsubscribe-result-wrong/active/{how}"), "connection A unsubscribes its own {id}: {other:?}"),
+		}
+	}
+	out.history.push(format!("{how}, cap {cap}"));
+	out
+}
+
 /// Id provider driven by the harness: hands out the queued ids first (so that an id can be issued again on the same
 /// connection, as the library's own `NoopIdProvider` or a short `RandomStringIdProvider` do), then fresh numbers.
 #[derive(Debug, Clone, Default)]
@@ -1393,6 +1504,8 @@ fn main() {
 		if let Some(sc) = w["witness"]["scenario"].as_str() {
 			let o = if sc.starts_with("a subscription id is issued again") {
 				block_on_virtual(id_reuse_case(seed))
+			} else if sc.starts_with("the per-connection service is assembled") {
+				block_on_virtual(assembly_case(seed))
 			} else if sc.starts_with("the subscribe response does not fit") {
 				block_on_virtual(oversized_accept_case(seed))
 			} else if sc.starts_with("the subscribe call is given up") {
@@ -1507,6 +1620,28 @@ fn main() {
 			}
 			for (sig, d) in o.violations {
 				violations.push(Violation::new(sig, d, json!({"scenario": "the subscribe response does not fit into max_response_body_size", "seed": s, "history": o.history})));
+			}
+		}
+	}
+	if !replay {
+		let n = ctx.tier.pick(300u64, 15_000);
+		let seed = ctx.seed;
+		let res = run_parallel((0..n).collect(), |_, i| {
+			let s = Rng::fork(seed, 64_000_000 + i).next_u64();
+			(s, block_on_virtual(assembly_case(s)))
+		});
+		for (s, o) in res {
+			ev.eval();
+			ev.count("cases_other_service_assemblies", 1);
+			ev.count("operations_checked", o.ops_checked as u64);
+			for h in &o.history {
+				ev.count(&format!("assembly_{}", h.split(',').next().unwrap_or("")), 1);
+			}
+			if o.admissions > 1 {
+				ev.nontrivial(&("assembly", s));
+			}
+			for (sig, d) in o.violations {
+				violations.push(Violation::new(sig, d, json!({"scenario": "the per-connection service is assembled in another way than the accept loop does", "seed": s, "history": o.history})));
 			}
 		}
 	}
